@@ -175,3 +175,15 @@ Definition tableau_ok_b (t : tableau) : bool :=
   && forallb (fun i => forallb (fun j => acq (fst (prow l i)) (fst (prow l j)) =? tab_expected_acq n i j)
                                (seq 0 (2 * n))) (seq 0 (2 * n))
   && forallb (fun i => herm (prow l i) && (0 <=? snd (prow l i)) && (snd (prow l i) <? 4)) (seq 0 (2 * n)).
+
+(* ---- the kernels exactly as the code runs them on the string array only ----
+   utils.stabilizer_project receives gs_stb alone: strings are combined and moved, the phase array ps is not touched at all.  The scan above (shared with
+   stabilizer_measure) also updates phases; the code-faithful projection therefore keeps the ORIGINAL phase of every row position. *)
+Definition keep_phases (old new : plist) : plist := map2 (fun o n => (fst n, snd o)) old new.
+Definition project_c (t : tableau) (gos : list pstr) : tableau :=
+  let t' := project t gos in {| rows := keep_phases (rows t) (rows t'); rk := rk t' |}.
+Definition stabilizer_state_c (n : nat) (stabs : plist) : option tableau :=
+  if all_commute (map fst stabs) then
+    let t := project_c (mixed_state n) (rev (map fst stabs)) in
+    Some {| rows := set_phases_from (rows t) (rk t) (map snd stabs); rk := rk t |}
+  else None.
